@@ -314,6 +314,10 @@ def run(ctx):
 
     # loads are integrated on the boundary groups: after a motion / re-coordination their Jacobians are those of the new geometry
     ctx.attempt(_mesh_motion_rule, ctx, "R9.16")
+    from ..shared import loop_carried_parameter_rule as _loop_carried_parameter_rule
+
+    # a load selection covering faces of several boundary groups: every group is searched with the caller's node set
+    ctx.attempt(_loop_carried_parameter_rule, ctx, "R9.18", lambda f: f.module.name.startswith(("EasyFEA.FEM", "EasyFEA.Simulations")), 20)
     selection_rules(ctx)
 
     # ---- R9.5 point load
